@@ -331,6 +331,9 @@ class Statement(object):
 
             start_address = statements[this_index].code_pkg.address.int
             jump_amount = relative_address - start_address - self.code_pkg.size
+            if self.pcr_size_hint == 4:
+                # Program counter arithmetic wraps around the 64K address space
+                jump_amount &= 0xFFFF
             self.code_pkg.additional = NumericValue(jump_amount, size_hint=self.pcr_size_hint)
 
 # E N D   O F   F I L E #######################################################
